@@ -136,16 +136,16 @@ func (p *Prog) shapeOf(v ssa.Value) Shape {
 			return Shape{Kind: "call", Callee: calleeName(&c.Call), Index: x.Index, Val: v0}
 		}
 	case *ssa.Call:
+		if sh, ok := p.errCtorShape(x, v0); ok {
+			return sh
+		}
 		if calleeQualified(&x.Call) == "fmt.Errorf" && len(x.Call.Args) >= 1 {
 			sh := Shape{Kind: "errorf", Val: v0}
-			format := ""
-			if fc, ok := x.Call.Args[0].(*ssa.Const); ok {
-				format = constString(fc)
-			}
+			format := formatPrefix(x.Call.Args[0])
 			sh.Text = format
 			var args []ssa.Value
 			if len(x.Call.Args) > 1 {
-				args = variadicArgs(x.Call.Args[1])
+				args = errorfArgs(x.Call.Args[1])
 			}
 			// verbs in order
 			verbs := formatVerbs(format)
@@ -222,8 +222,19 @@ func formatVerbs(f string) []byte {
 
 // passesValue: the errorf shape wraps (with %w or %v) the given value.
 func (p *Prog) errorfMentions(sh Shape, v ssa.Value) bool {
+	// wrapped through %w (also when the Errorf sits in a constructor helper
+	// and v is one of the helper's arguments)
+	for _, a := range sh.Passes {
+		a = stripConv(a)
+		if mi, ok := a.(*ssa.MakeInterface); ok {
+			a = mi.X
+		}
+		if sameValue(a, v) {
+			return true
+		}
+	}
 	c, ok := stripConv(sh.Val).(*ssa.Call)
-	if !ok || len(c.Call.Args) < 2 {
+	if !ok || len(c.Call.Args) < 2 || calleeQualified(&c.Call) != "fmt.Errorf" {
 		return false
 	}
 	for _, a := range variadicArgs(c.Call.Args[1]) {
@@ -254,4 +265,96 @@ func sortedKeys(m map[string]bool) []string {
 	}
 	sort.Strings(ks)
 	return ks
+}
+
+// formatPrefix: the constant text a format argument starts with: the constant
+// itself, or the constant left end of a concatenation ("%w: " + format).
+func formatPrefix(v ssa.Value) string {
+	for i := 0; i < 6; i++ {
+		switch x := v.(type) {
+		case *ssa.Const:
+			return constString(x)
+		case *ssa.BinOp:
+			if x.Op != token.ADD {
+				return ""
+			}
+			v = x.X
+		default:
+			return ""
+		}
+	}
+	return ""
+}
+
+// errorfArgs: the leading elements of the variadic argument slice of an
+// Errorf call: a slice literal, or append(literal, rest...).
+func errorfArgs(v ssa.Value) []ssa.Value {
+	if c, ok := v.(*ssa.Call); ok {
+		if bi, ok := c.Call.Value.(*ssa.Builtin); ok && bi.Name() == "append" && len(c.Call.Args) >= 1 {
+			return variadicArgs(c.Call.Args[0])
+		}
+	}
+	return variadicArgs(v)
+}
+
+// errCtorShape: the call goes to a small module function whose only return is
+// a fmt.Errorf (an error-constructor helper such as verbosef or wrapErr). The
+// shape is that Errorf's, with the helper's parameters replaced by the
+// arguments of this call, so a sentinel handed in as an argument counts as a
+// sentinel and a wrapped error handed in counts as passed on.
+func (p *Prog) errCtorShape(c *ssa.Call, v0 ssa.Value) (Shape, bool) {
+	sc := c.Call.StaticCallee()
+	if sc == nil || !inModule(sc) || sc.Blocks == nil || len(sc.Blocks) != 1 || sc.Signature.Results().Len() != 1 || !isErrorType(sc.Signature.Results().At(0).Type()) {
+		return Shape{}, false
+	}
+	ret, ok := sc.Blocks[0].Instrs[len(sc.Blocks[0].Instrs)-1].(*ssa.Return)
+	if !ok || len(ret.Results) != 1 {
+		return Shape{}, false
+	}
+	inner, ok := stripConv(ret.Results[0]).(*ssa.Call)
+	if !ok || calleeQualified(&inner.Call) != "fmt.Errorf" {
+		return Shape{}, false
+	}
+	in := p.shapeOf(inner)
+	if in.Kind != "errorf" {
+		return Shape{}, false
+	}
+	out := Shape{Kind: "errorf", Text: in.Text, Val: v0, Sentinels: append([]string{}, in.Sentinels...)}
+	for _, pass := range in.Passes {
+		q, isParam := stripConv(pass).(*ssa.Parameter)
+		if mi, ok := stripConv(pass).(*ssa.MakeInterface); ok {
+			q, isParam = stripConv(mi.X).(*ssa.Parameter)
+		}
+		if !isParam {
+			out.Passes = append(out.Passes, pass)
+			continue
+		}
+		for i, fq := range sc.Params {
+			if fq != q || i >= len(c.Call.Args) {
+				continue
+			}
+			a := c.Call.Args[i]
+			if g := loadedGlobal(a); g != nil && g.Pkg != nil {
+				// sentinels keep the order of the verbs: a parameter that comes
+				// first in the format comes first here
+				out.Sentinels = append([]string{g.Pkg.Pkg.Name() + "." + g.Name()}, out.Sentinels...)
+			} else {
+				out.Passes = append(out.Passes, a)
+			}
+		}
+	}
+	return out, true
+}
+
+// isErrCtor: fn is an error-constructor helper (see errCtorShape).
+func (p *Prog) isErrCtor(fn *ssa.Function) bool {
+	if fn == nil || !inModule(fn) || fn.Blocks == nil || len(fn.Blocks) != 1 || fn.Signature.Results().Len() != 1 || !isErrorType(fn.Signature.Results().At(0).Type()) {
+		return false
+	}
+	ret, ok := fn.Blocks[0].Instrs[len(fn.Blocks[0].Instrs)-1].(*ssa.Return)
+	if !ok || len(ret.Results) != 1 {
+		return false
+	}
+	inner, ok := stripConv(ret.Results[0]).(*ssa.Call)
+	return ok && calleeQualified(&inner.Call) == "fmt.Errorf"
 }
